@@ -253,15 +253,17 @@ static const int KS_KINDS[] = {K128, TK128, K64, TK64, MK};
 static inline Plan gen_lifecycle(Rng rng, int nops_max, bool rich_before_cleanup) {
     Gen G(rng);
     int nobj = 1 + G.r.below(5);
-    for (int i = 0; i < nobj; ++i) G.add_slot(OBJ_KINDS[G.r.below(6)]);
+    bool same_kind = G.r.chance(1, 4); int k0 = OBJ_KINDS[G.r.below(6)];      // a quarter of the histories: a pool of objects of one kind
+    for (int i = 0; i < nobj; ++i) G.add_slot(same_kind ? k0 : OBJ_KINDS[G.r.below(6)]);
+    static const int PREFILL[] = {0, 1, 2, 0, 1, 2, 3, 4, 6, 6};                // prior content of the handle storage
     int nops = 5 + G.r.below(nops_max - 4);
     for (int i = 0; i < nops; ++i) {
         int s = G.r.below(nobj); GSlot &q = G.g[s];
         unsigned c = G.r.below(100);
-        if (q.life == L_RAW) { if (c < 85) G.init(s, G.r.below(3), 0, G.r.below(3)); else G.zero(s); continue; }
+        if (q.life == L_RAW) { if (c < 85) G.init(s, G.r.below(3), 0, PREFILL[G.r.below(10)]); else G.zero(s); continue; }
         if (q.life != L_INIT) {
             // cleaned / zeroed / failed: cleanup again, use after cleanup, re-init
-            if (c < 30) G.init(s, G.r.below(3), G.r.chance(1, 8) ? 1 : 0, c < 10 ? 5 : G.r.below(3));     // one in eight (re-)initialisations runs out of memory
+            if (c < 30) G.init(s, G.r.below(3), G.r.chance(1, 8) ? 1 : 0, c < 10 ? 5 : PREFILL[G.r.below(10)]);     // one in eight (re-)initialisations runs out of memory
             else if (c < 50) G.cleanup(s);
             else if (c < 55) { Op &o = G.emit(OP_CLEANUP, s); o.flags |= F_NULLOBJ; }
             else if (c < 62) G.zero(s);
@@ -283,10 +285,10 @@ static inline Plan gen_lifecycle(Rng rng, int nops_max, bool rich_before_cleanup
 // C16: an init with an injected allocation failure, every prior handle content class, then a tail
 static inline Plan gen_failinit(Rng rng, uint64_t run) {
     Gen G(rng);
-    int kind = OBJ_KINDS[run % 6]; int cpu = (run / 6) % 3; int prefill = (run / 18) % 6; int k = 1 + (run / 108) % 2;
+    int kind = OBJ_KINDS[run % 6]; int cpu = (run / 6) % 3; int prefill = (run / 18) % 7; int k = 1 + (run / 126) % 2;
     int s = G.add_slot(kind);
-    int other = G.add_slot(OBJ_KINDS[G.r.below(6)]);
-    if (G.r.chance(1, 2)) { G.init(other, G.r.below(3)); G.valid_key(other, true); }
+    int other = G.add_slot(prefill == 6 ? kind : OBJ_KINDS[G.r.below(6)]);
+    if (prefill == 6 || G.r.chance(1, 2)) { G.init(other, G.r.below(3)); G.valid_key(other, true); }
     if (prefill == 5) { G.init(s, cpu); if (G.r.chance(1, 2)) G.valid_key(s, true); G.cleanup(s); }
     G.init(s, cpu, k, prefill);
     G.g[s].life = L_FAILED;
@@ -462,7 +464,10 @@ static inline Plan gen_tweak(Rng rng) {
             if (G.r.chance(1, 2)) { Op c2 = o; c2.slot = ct; G.p.ops.push_back(c2); G.setctr(ct); }
         } else if (c < 75) G.block(ks);
         else if (c < 90) G.enc(ct, G.data_len(G.g[ct], 150));
-        else if (c < 94) { G.setkey(ks, ksize, true); G.p.ops.back().a = key; }    // re-keying resets the tweak
+        else if (c < 94) {                                                         // re-keying resets the tweak - of the schedule, and of the CTR object's own copy
+            if (G.r.chance(1, 2)) { G.setkey(ks, ksize, true); G.p.ops.back().a = key; }
+            else { G.setkey(ct, ksize, true); G.p.ops.back().a = key; if (G.r.chance(1, 2)) G.setctr(ct); }
+        }
         else if (c < 97) { Op &o = G.emit(OP_SETTWEAK, ks); o.flags |= F_INJECTED; o.size = G.r.chance(1, 2) ? 0 : bs + 1 + G.r.below(4); o.a = G.r.bytes(o.size); }   // rejected tweak in the middle
         else G.setctr(ct);
     }
@@ -591,6 +596,6 @@ static inline Plan gen_mixture(Rng rng, uint64_t run) {
     case 4: return gen_parallel(rng, rng.s % 100000);
     case 5: return gen_lifecycle(rng, 40, true);
     case 6: return gen_buffers(rng);
-    default: return gen_xhost(rng, false);
+    default: return gen_xhost(rng, (rng.s >> 8) & 1);     // half of them with the calls that have no model (executed only where the oracle is differential)
     }
 }
